@@ -57,20 +57,34 @@ pub fn rx_spec(cache: usize) -> RxSpec {
 /// heap bound for a hostile sequence of `n` packets under a per-object limit `cache`:
 /// every packet may open one object (<= 64 x cache incl. per-symbol bookkeeping of E=1 blocks) or
 /// one FDT instance (fixed 1 MiB limit inside flute), plus slack
-/// the same bound, per packet: a packet of TOI 0 may open an FDT instance, whose block limit is a
-/// constant of flute (1 MiB) and not the configured cache size; with a hostile FTI (E = 1) the
-/// per-symbol bookkeeping of such a block is 24 bytes per byte of block, the same amplification the
-/// object bound (64 x cache) allows for
+/// heap bound of a hostile sequence under a per-object limit `cache`: memory is attributed to what
+/// the sequence can open, not to its length. Every distinct (TSI, TOI != 0) may hold an object
+/// (<= 64 x cache incl. the per-symbol bookkeeping of E = 1 blocks, + 1 MiB for its block table and
+/// writer), every distinct (TSI, FDT instance id) an FDT instance (block limit = the constant 1 MiB of
+/// flute, same 64 x amplification), every datagram the reference cannot decode counts as one object.
+/// A sequence that grows ONE object with many packets is therefore held to one object's budget.
 pub fn heap_bound_seq(seq: &[Vec<u8>], cache: usize) -> usize {
-    let mut b = 4usize << 20;
+    let mut objects: std::collections::BTreeSet<(u64, u128)> = Default::default();
+    let mut instances: std::collections::BTreeSet<(u64, u32)> = Default::default();
+    let mut opaque = 0usize;
     for p in seq {
-        let fdt = match crate::rfc::lct::decode(p) {
-            Ok(h) => h.toi == 0,
-            Err(_) => true,
-        };
-        b += if fdt { 64 * cache.max(1 << 20) + (3 << 20) } else { 64 * cache + (3 << 20) };
+        match crate::rfc::pkt::decode(p, 0) {
+            Ok(d) => {
+                if d.lct.toi == 0 {
+                    instances.insert((d.lct.tsi, d.fdt.map(|f| f.1).unwrap_or(u32::MAX)));
+                } else {
+                    objects.insert((d.lct.tsi, d.lct.toi));
+                }
+            }
+            Err(_) => match crate::rfc::lct::decode(p) {
+                Ok(h) if h.toi != 0 => {
+                    objects.insert((h.tsi, h.toi));
+                }
+                _ => opaque += 1,
+            },
+        }
     }
-    b
+    (4 << 20) + (objects.len() + opaque) * (64 * cache + (1 << 20)) + (instances.len() + opaque) * (64 * cache.max(1 << 20) + (3 << 20))
 }
 
 pub fn single_alloc_bound(cache: usize) -> usize {
@@ -362,6 +376,10 @@ pub enum Mut {
     Field { p: u16, edit: FieldEdit },
     Raw { at: u16, bytes: Vec<u8> },
     Foreign { at: u16, fdt: HostileFdt },
+    /// `n` packets of ONE hostile object (in-band FTI announcing an enormous number of tiny blocks)
+    /// whose source block numbers climb by `step` per packet: every packet alone is plausible, the
+    /// sequence as a whole makes the object's block table grow
+    Staircase { at: u16, scheme: Scheme, e: u16, b: u32, blocks: u32, step: u32, n: u16 },
 }
 
 #[derive(Debug, Clone, Serialize, Deserialize)]
@@ -730,6 +748,42 @@ pub fn apply_muts(base: &[Vec<u8>], muts: &[Mut]) -> Vec<Vec<u8>> {
                 let t = idx(*at, n + 1);
                 seq.insert(t, bytes.clone());
             }
+            Mut::Staircase { at, scheme, e, b, blocks, step, n: count } => {
+                let t = idx(*at, n + 1);
+                let e = (*e).max(1);
+                let b = (*b).max(1);
+                let mut f = Fti::blank(*scheme);
+                f.transfer_length = (e as u64 * b as u64 * *blocks as u64).min((1u64 << 40) - 1);
+                f.e = e;
+                f.b = b;
+                f.max_n = b + 1;
+                f.z = 1;
+                f.n = 1;
+                f.al = 1;
+                for k in 0..(*count as usize).min(400) {
+                    let spec = LctSpec {
+                        version: 1,
+                        psi: 0,
+                        res: 0,
+                        c: 0,
+                        cci: 0,
+                        s: 1,
+                        o: 1,
+                        h: 1,
+                        tsi: HOSTILE_TSI,
+                        toi: 0x57A1,
+                        cp: scheme.fec_id(),
+                        close_session: false,
+                        close_object: false,
+                        exts: vec![fti::encode(&f)],
+                    };
+                    let mut p = lct::build(&spec);
+                    let sbn = (k as u64 * *step as u64).min(u32::MAX as u64) as u32;
+                    p.extend_from_slice(&fti::encode_payload_id(*scheme, 0, &PayloadId { sbn, esi: 0, sbl: Some(b.min(65535) as u16) }));
+                    p.extend(std::iter::repeat(0x5au8).take(e as usize));
+                    seq.insert((t + k).min(seq.len()), p);
+                }
+            }
             Mut::Foreign { at, fdt } => {
                 let t = idx(*at, n + 1);
                 let pk = hostile_fdt_packets(fdt, HOSTILE_TSI);
@@ -880,6 +934,16 @@ pub fn mut_strategy() -> BoxedStrategy<Mut> {
         8 => (any::<u16>(), field_edit()).prop_map(|(p, edit)| Mut::Field { p, edit }),
         1 => (any::<u16>(), proptest::collection::vec(any::<u8>(), 0..40)).prop_map(|(at, bytes)| Mut::Raw { at, bytes }),
         4 => (any::<u16>(), hostile_fdt()).prop_map(|(at, fdt)| Mut::Foreign { at, fdt }),
+        1 => (
+            any::<u16>(),
+            prop_oneof![Just(Scheme::NoCode), Just(Scheme::Rs28), Just(Scheme::Rs28Us)],
+            prop_oneof![Just(1u16), Just(4), Just(16)],
+            1u32..3,
+            prop_oneof![Just(1u32 << 23), Just(1 << 16), Just(1 << 20), 1u32..(1 << 24)],
+            prop_oneof![3 => Just(4096u32), 2 => Just(4000), 1 => Just(4095), 1 => Just(1), 1 => Just(4097), 2 => 1u32..8192],
+            prop_oneof![1 => 2u16..20, 2 => 20u16..320],
+        )
+            .prop_map(|(at, scheme, e, b, blocks, step, n)| Mut::Staircase { at, scheme, e, b, blocks, step, n }),
     ]
     .boxed()
 }
@@ -894,7 +958,7 @@ pub fn seq_strategy() -> BoxedStrategy<SeqCase> {
 
 pub fn run(eng: &mut Engine) {
     eng.assume("flute built with overflow checks and debug assertions on: arithmetic overflow and failed internal assertions are panics and are reported");
-    eng.assume("heap oracle: per-thread live bytes from the harness' counting allocator; bound = 4 MiB + packets x (64 x object_max_cache_size + 3 MiB), single request <= 2 MiB + 64 x max(limit, 1 MiB); a refused allocation (> 3 GiB single / 24 GiB total) aborts and is attributed to the published case");
+    eng.assume("heap oracle: per-thread live bytes from the harness' counting allocator; bound = 4 MiB + distinct (TSI, TOI) x (64 x object_max_cache_size + 1 MiB) + distinct (TSI, FDT instance id) x (64 x 1 MiB + 3 MiB), undecodable datagrams counting as one of each; single request <= 2 MiB + 64 x max(limit, 1 MiB); a refused allocation (> 3 GiB single / 24 GiB total) aborts and is attributed to the published case");
     eng.assume("'bounded time' is a watchdog of 60 s per case (median case < 5 ms)");
     let tier = eng.tier;
 
@@ -1001,7 +1065,7 @@ pub fn run(eng: &mut Engine) {
     eng.generated(
         PartCfg::new(
             "mutations",
-            "1-4 mutations of a corpus session: bit flips, byte sets, truncation, extension, splicing, duplication, reordering, field-aware edits through the reference codec (HDR_LEN, flag bits, HET/HEL, every FTI field, instance id, codepoint, SBN/ESI/SBL, B/A flags, EXT_TIME use bits, TOI/TSI, payload length), raw byte strings and foreign FDT instances (hostile attribute values, OTI attributes, malformed XML, 10^4 File elements) with follow-up object packets; non-trivial = at least one packet of the sequence parses; distinct by case",
+            "1-4 mutations of a corpus session: bit flips, byte sets, truncation, extension, splicing, duplication, reordering, field-aware edits through the reference codec (HDR_LEN, flag bits, HET/HEL, every FTI field, instance id, codepoint, SBN/ESI/SBL, B/A flags, EXT_TIME use bits, TOI/TSI, payload length), raw byte strings, foreign FDT instances (hostile attribute values, OTI attributes, malformed XML, 10^4 File elements) with lead and follow-up object packets, and staircases (2-320 packets of one hostile object whose block numbers climb by a fixed step); non-trivial = at least one packet of the sequence parses; distinct by case",
             tier.pick(300_000, 6_000_000),
         )
         .hang_violates()
@@ -1113,7 +1177,7 @@ pub fn seq_case_from_bytes(data: &[u8]) -> SeqCase {
     let cache = [4usize << 10, 16 << 10, 64 << 10, 1 << 20][(b.u8() % 4) as usize];
     let mut muts = vec![];
     while b.left() > 0 && muts.len() < 8 {
-        let tag = b.u8() % 12;
+        let tag = b.u8() % 13;
         let m = match tag {
             0 => Mut::Flip { p: b.u16(), bit: b.u16() },
             1 => Mut::SetByte { p: b.u16(), off: b.u16(), val: b.u8() },
@@ -1129,6 +1193,15 @@ pub fn seq_case_from_bytes(data: &[u8]) -> SeqCase {
                 let n = b.u8() as usize;
                 Mut::Raw { at, bytes: b.take(n) }
             }
+            12 => Mut::Staircase {
+                at: b.u16(),
+                scheme: [Scheme::NoCode, Scheme::Rs28, Scheme::Rs28Us][(b.u8() % 3) as usize],
+                e: [1u16, 4, 16][(b.u8() % 3) as usize],
+                b: 1 + (b.u8() % 2) as u32,
+                blocks: 1 << (10 + b.u8() % 14),
+                step: b.u16() as u32 % 8192 + 1,
+                n: b.u16() % 320,
+            },
             _ => {
                 // a foreign FDT: attribute values are taken from the input as decimal / raw text
                 let at = b.u16();
